@@ -12,7 +12,11 @@
 (*                                                                         *)
 (* cfg = [mode  : "auto" (logic+argument given, trunk built at             *)
 (*                construction) | "manual" (auto_build_trunk=False)        *)
-(*                | "noarg" (logic only),                                  *)
+(*                | "noarg" (logic only)                                   *)
+(*                | "hand" (logic only, auto_build_trunk=False, and a      *)
+(*                  branch whose nodes were put in by hand before the      *)
+(*                  first call: rules apply although no trunk was ever     *)
+(*                  built; only step / finish / build are driven),         *)
 (*        n     : natural length of the unlimited proof,                   *)
 (*        valid : 1/0 verdict of the unlimited proof,                      *)
 (*        limit : max_steps option (-1 = None; 0 and negatives unlimited), *)
@@ -24,17 +28,17 @@ EXTENDS Naturals, Integers, Sequences, FiniteSets, TLC
 Calls == {"step", "finish", "build", "build_trunk", "set_argument", "set_logic", "add_rule"}
 
 Init0(cfg) ==
-  [hasarg |-> cfg.mode # "noarg", trunk |-> cfg.mode = "auto", started |-> cfg.mode = "auto",
+  [hasarg |-> cfg.mode \notin {"noarg", "hand"}, trunk |-> cfg.mode = "auto", started |-> cfg.mode = "auto",
    finished |-> FALSE, pflag |-> TRUE, k |-> 0, ran |-> FALSE, timedout |-> FALSE,
    \* which argument object the tableau holds: 0 none, 1 the constructor's, j + 1 the one passed by the
    \* j-th set_argument call (nset counts those calls, capped so that the model stays finite)
-   argid |-> IF cfg.mode # "noarg" THEN 1 ELSE 0, nset |-> 0]
+   argid |-> IF cfg.mode \notin {"noarg", "hand"} THEN 1 ELSE 0, nset |-> 0]
 NSetCap == 5
 Bump(st) == IF st.nset < NSetCap THEN st.nset + 1 ELSE NSetCap
 
 LimitActive(cfg) == cfg.limit > 0
 Exceeded(cfg, st) == LimitActive(cfg) /\ st.k >= cfg.limit
-CanApply(cfg, st) == st.trunk /\ st.k < cfg.n
+CanApply(cfg, st) == (st.trunk \/ cfg.mode = "hand") /\ st.k < cfg.n
 
 Ret(st, r) == [st |-> st, ret |-> r]
 
